@@ -1,6 +1,7 @@
 import RemocModel.Rtc.Live
 import RemocModel.Rtc.Example
 import RemocModel.Rtc.RfnLive
+import RemocModel.Rtc.RfnTerm
 import RemocModel.Rtc.RfnExample
 set_option linter.unusedSimpArgs false
 set_option linter.unusedVariables false
@@ -326,6 +327,17 @@ theorem rfn_no_pending_at_quiescence (cfg : Cfg) (s : State f) (h : Reachable cf
     have := (hi.st.exec c).2 (Or.inl hl)
     rw [hdone c] at this; cases this
 
+/-- **No livelock: quiescence is reached.**  From any reachable state the runtime can take at
+most `mu s` steps on its own (every list of consecutively enabled internal labels is at most that
+long): request hand-over, dequeue, permits, function segments, cancellation, result transmission,
+purge and the end of the provider task all consume a bounded budget that only the environment
+(new calls) refills.  Together with `rfn_no_pending_at_quiescence`: every call gets its outcome
+after finitely many steps. -/
+theorem rfn_internal_steps_terminate (cfg : Cfg) (s s' : State f) (h : Reachable cfg s) (ls : List Label)
+    (hint : ∀ l, l ∈ ls → l.internal = true) (hrun : execAll cfg s ls = some s') :
+    mu s' + ls.length ≤ mu s :=
+  internal_run_bounded cfg s s' (inv_of_reachable cfg s h) ls hint hrun
+
 /-- every error outcome has one of the legitimate causes -/
 theorem rfn_error_has_cause (cfg : Cfg) (s : State f) (h : Reachable cfg s) (c : Nat) (hlt : c < s.n)
     (he : s.cl c = .error) : Cause cfg s c :=
@@ -446,6 +458,15 @@ example : Quiescent (cfgOf .mut false) (run (cfgOf .mut false) (init addFn) runP
     ∧ (run (cfgOf .mut false) (init addFn) runProvDrop).cl 0 = .error
     ∧ (run (cfgOf .mut false) (init addFn) runProvDrop).loop = .stopped .provDropped :=
   ⟨quiescent_of_check _ _ (by decide), by decide, by decide⟩
+
+/-- the internal part of that run (provider task ends, send fails, error delivered) is a strictly
+executed list of internal labels: three steps, the measure drops from 12 to 3 -/
+example : execAll (cfgOf .mut false) (run (cfgOf .mut false) (init addFn) [.dropProvider, .issue 5])
+      [.provTerm, .sendFail 0, .recvReply 0]
+      = some (run (cfgOf .mut false) (init addFn) [.dropProvider, .issue 5, .provTerm, .sendFail 0, .recvReply 0])
+    ∧ mu (run (cfgOf .mut false) (init addFn) [.dropProvider, .issue 5]) = 12
+    ∧ mu (run (cfgOf .mut false) (init addFn) [.dropProvider, .issue 5, .provTerm, .sendFail 0, .recvReply 0]) = 3 := by
+  refine ⟨rfl, by decide, by decide⟩
 
 /-- … and before the call future has been polled again the state is *not* quiescent: the error is
 on its way (`recvReply` is enabled) -/
